@@ -813,12 +813,15 @@ namespace Pistache::Http::Experimental
 
     void Connection::processRequestQueue()
     {
-        for (;;)
+        // Exactly one request waits for the connection to be established: the
+        // one whose sender called connect(). This function may run on that
+        // sender's thread (when the connection is established before the
+        // continuation is attached); looking into the queue again after the
+        // request has been handed over would overlap with the next user of the
+        // connection, who queues its own request once this one is complete.
+        auto req = requestsQueue.popSafe();
+        if (req)
         {
-            auto req = requestsQueue.popSafe();
-            if (!req)
-                break;
-
             performImpl(req->request, std::move(req->resolve), std::move(req->reject),
                         std::move(req->onDone));
         }
